@@ -648,6 +648,55 @@ class C19(Prop):
         return "asset/%s/%s" % ("direct" if case.get("direct") else "mux", (impl or {}).get("status"))
 
 
+RAW_TEXT = {"script", "style", "textarea", "title", "xmp", "iframe", "noembed", "noframes", "noscript", "plaintext"}
+
+
+class C14(Prop):
+    id = "C14"
+    n_quick = 3000
+    n_thorough = 60000
+    required_theorems = ["C14_tokens", "C14_empty_allow", "C14_attr_value_safe", "C14_extract"]
+    rule = ("byte strings from a grammar-based HTML mutator (35 element names incl. raw-text, foreign-content and mixed-case ones, 13 attribute names incl. event handlers and a "
+            "name with a quote, quoted/unquoted/empty values, entity-encoded and double-encoded markup, NUL, invalid UTF-8, comments, doctype, CDATA, processing instructions, "
+            "stray and missing end tags, nesting <= 4 quick / 7 thorough) x allow-lists (empty, absent, 1-5 definitions of ordinary elements with attribute lists, mixed case, "
+            "malformed definitions). Oracle: golang.org/x/net/html Tokenizer over the REAL output. Non-trivial: input contains a tag; distinct by case.")
+    assumptions = ["the HTML5 parser (html.ParseFragment) is trusted: the model runs on the DOM the real parser returned; the real tokenizer's agreement with the token grammar "
+                   "of the theorem is trusted"]
+
+    def compare(self, case, impl, model, spec):
+        if not isinstance(impl, dict) or impl.get("class") != "ok":
+            return False, False, "harness failure: %r" % (impl,)
+        m = out_of(model)
+        corr = m == ("ok", impl.get("out"))
+        allow = {}
+        for d in (case.get("allow") or []):
+            d = d.lower()
+            if "(" in d:
+                name, rest = d.split("(", 1)[0], d.split("(")[1]
+                allow[name] = set(rest.rstrip(")").split(" "))
+            else:
+                allow[d] = set()
+        prop = True
+        why = ""
+        o = impl["oracle"]
+        if o["comments"] or o["doctypes"]:
+            prop, why = False, "comment or declaration token in the output"
+        for kind, name, keys in o["tags"]:
+            if name not in allow or name == "":
+                prop, why = False, "tag <%s> is not allow-listed" % name
+            elif any(k not in allow[name] for k in keys):
+                prop, why = False, "attribute %s of <%s> is not allow-listed" % (keys, name)
+        if not allow and "<" in impl.get("out", ""):
+            prop, why = False, "'<' in the output with an empty allow-list"
+        if allow and any(t in RAW_TEXT for t in allow):
+            prop = None if prop else prop   # raw-text elements in the allow-list are outside the property
+        detail = "stripTags(%r, %s) = %r model=%r %s" % (case["input"][:200], case.get("allow"), impl.get("out", "")[:200], (m[1] or "")[:200], why)
+        return corr, prop, detail
+
+    def nontrivial(self, case, impl):
+        return "<" in case["input"]
+
+
 WS = " \t\r\n"
 
 
@@ -706,4 +755,4 @@ class C13(Prop):
         return "%s/%s" % (case.get("from"), out_of((impl or {}).get("prod"))[0])
 
 
-PROPS = {p.id: p for p in [C01(), C02(), C03(), C04(), C05(), C06(), C07(), C09(), C10(), C11(), C12(), C13(), C16(), C17(), C18(), C19(), C20()]}
+PROPS = {p.id: p for p in [C01(), C02(), C03(), C04(), C05(), C06(), C07(), C09(), C10(), C11(), C12(), C13(), C14(), C16(), C17(), C18(), C19(), C20()]}
